@@ -1,20 +1,202 @@
-(* Run.v — the operations the correspondence check runs on both sides. *)
+(* Run.v — the operations the correspondence check runs on both sides, and how
+   model results are rendered as observation trees. *)
 From Coq Require Import Ascii String ZArith List Bool.
-From GoCose Require Import Bytes Res GoVal Obs Ecdsa.
+From GoCose Require Import Bytes Cbor Res GoVal Obs Ecdsa Fx Headers Enc Dec Msg HashEnv Key SigVer.
 Import ListNotations.
 Open Scope Z_scope.
 
+(* scripted keys *)
+Definition sspec := (Z * sigout)%type.               (* algorithm, what Sign returns *)
+Definition vspec := (Z * res unit)%type.             (* algorithm, what Verify returns *)
+Definition mk_signer (s : sspec) : signer := mkSigner (fst s) (fun _ => snd s).
+Definition mk_verifier (v : vspec) : verifier := mkVerifier (fst v) (fun _ _ => snd v).
+
+Inductive deckind := DSign1 | DSign1U | DSignature | DSignMsg | DProt | DUnprot | DKey.
+
 Inductive op :=
 (* ECDSA framing (C16) *)
-| OpEcdsaSign (n : Z) (src : option (Z * Z))            (* NewSigner(ES*, crypto.Signer stub).Sign: stub returns DER(r,s) or fails *)
-| OpEcdsaVerify (n : Z) (sig : bytes) (oracle : bool)   (* NewVerifier(ES*, pub).Verify; oracle = crypto/ecdsa.Verify on the halves *)
+| OpEcdsaSign (n : Z) (src : option (Z * Z))
+| OpEcdsaVerify (n : Z) (sig : bytes) (oracle : bool)
+(* decoders: value, then its re-encoding *)
+| OpDec (k : deckind) (data : bytes)
+(* a history of decodes into one destination variable *)
+| OpDecSeq (k : deckind) (datas : list bytes)
+(* encoders on in-memory values *)
+| OpEncSign1 (tagged : bool) (m : sign1)
+| OpEncSignature (s : sigv)
+| OpEncSignMsg (m : signmsg)
+| OpEncProt (p : option (list gv))
+| OpEncUnprot (u : option (list gv))
+| OpEncKey (k : key)
+(* sign / verify *)
+| OpSign1 (m : sign1) (ext : gobytes) (sg : sspec)
+| OpVerify1 (m : sign1) (ext : gobytes) (vf : vspec)
+| OpHelperSign1 (tagged : bool) (h : headers) (payload ext : gobytes) (sg : sspec)
+| OpSigSign (s : sigv) (sg : sspec) (bodyprot : bytes) (payload ext : gobytes)
+| OpSigVerify (s : sigv) (vf : vspec) (bodyprot : bytes) (payload ext : gobytes)
+| OpSignMsg (m : signmsg) (ext : gobytes) (sgs : list sspec)
+| OpVerifyMsg (m : signmsg) (ext : gobytes) (vfs : list vspec)
+| OpCsign (s : sigv) (sg : sspec) (target : parent) (ext : gobytes)
+| OpCverify (s : sigv) (vf : vspec) (target : parent) (ext : gobytes)
+| OpCsign0 (sg : sspec) (target : parent) (ext : gobytes)
+| OpCverify0 (vf : vspec) (target : parent) (ext sig : gobytes)
+| OpSignHE (sg : sspec) (h : headers) (p : hepayload)
+| OpVerifyHE (vf : vspec) (data : bytes)
+(* keys *)
+| OpKeyFromPub (p : pubkey)
+| OpKeyFromPriv (p : privkey)
+| OpKeyPublic (k : key)
+| OpKeyPrivate (k : key)
+| OpKeySigner (k : key)
+| OpKeyVerifier (k : key) (on_curve : bool)
+| OpNewSigner (alg : Z) (kd : keydesc)
+| OpNewVerifier (alg : Z) (kd : keydesc)
+(* library-level probes used to keep the CBOR model honest *)
+| OpDecAny (data : bytes)                      (* decMode.Unmarshal(data, &any) *)
+| OpEncAny (g : gv)                            (* encMode.Marshal(g) *)
 .
+
+(* ---------------- renderers ---------------- *)
+Definition o_map (m : option (list gv)) : ot :=
+  match m with None => OT "nil" [] | Some l => OG (GMap l) end.
+Definition o_headers (h : headers) : ot :=
+  OT "H" [o_gobytes (rawP h); o_map (hP h); o_gobytes (rawU h); o_map (hU h)].
+Definition o_sign1 (m : sign1) : ot := OT "S1" [o_headers (s1_h m); o_gobytes (s1_payload m); o_gobytes (s1_sig m)].
+Definition o_sigv (s : sigv) : ot := OT "SG" [o_headers (sg_h s); o_gobytes (sg_sig s)].
+Definition o_optsig (s : option sigv) : ot := match s with None => OT "nil" [] | Some s => o_sigv s end.
+Definition o_signmsg (m : signmsg) : ot :=
+  OT "SM" [o_headers (sm_h m); o_gobytes (sm_payload m); OT "sigs" (map o_optsig (sm_sigs m))].
+Definition o_key (k : key) : ot :=
+  OT "K" [OZ (k_type k); o_gobytes (k_id k); OZ (k_alg k);
+          match k_ops k with None => OT "nil" [] | Some l => OT "ops" (map OZ l) end;
+          o_gobytes (k_baseiv k); o_map (k_params k)].
+Definition r_calls (l : list bytes) : ot := OT "calls" (map OB l).
+Definition r_vcalls (l : list (bytes * gobytes)) : ot :=
+  OT "vcalls" (map (fun c => OT "c" [OB (fst c); o_gobytes (snd c)]) l).
+Definition o_unit_res (r : res unit) : ot := o_res (fun _ => []) r.
+Definition o_bytes_res (r : res bytes) : ot := o_res (fun b => [OB b]) r.
+Definition o_pub (p : pubkey) : ot :=
+  match p with
+  | PubEC b x y => OT "ec" [OZ b; OZ x; OZ y]
+  | PubEd x => OT "ed" [OB x]
+  | PubOther => OT "other" []
+  end.
+Definition o_priv (p : privkey) : ot :=
+  match p with
+  | PrivEC b x y d => OT "ec" [OZ b; OZ x; OZ y; OZ d]
+  | PrivEd sk => OT "ed" [OB (firstn 32 sk)]       (* seed; the public half comes from the primitive *)
+  | PrivOther => OT "other" []
+  end.
+
+(* decode + re-encode *)
+Definition run_dec (k : deckind) (data : bytes) : ot :=
+  match k with
+  | DSign1 => o_res (fun m => [o_sign1 m; o_bytes_res (marshal_sign1 m)]) (unmarshal_sign1 data)
+  | DSign1U => o_res (fun m => [o_sign1 m; o_bytes_res (marshal_sign1_untagged m)]) (unmarshal_sign1_untagged data)
+  | DSignature => o_res (fun s => [o_sigv s; o_bytes_res (marshal_signature s)]) (unmarshal_signature data)
+  | DSignMsg => o_res (fun m => [o_signmsg m; o_bytes_res (marshal_signmsg m)]) (unmarshal_signmsg data)
+  | DProt => o_res (fun p => [OG (GMap p); o_bytes_res (enc_protected (Some p))]) (unmarshal_protected data)
+  | DUnprot => o_res (fun u => [OG (GMap u); o_bytes_res (enc_unprotected (Some u))]) (unmarshal_unprotected data)
+  | DKey => o_res (fun k => [o_key k; o_bytes_res (key_marshal k)]) (key_unmarshal data)
+  end.
+
+(* destination after a history of decodes: the last accepted value, else "zero" *)
+Definition dec_value (k : deckind) (data : bytes) : res ot :=
+  match k with
+  | DSign1 => rmap o_sign1 (unmarshal_sign1 data)
+  | DSign1U => rmap o_sign1 (unmarshal_sign1_untagged data)
+  | DSignature => rmap o_sigv (unmarshal_signature data)
+  | DSignMsg => rmap o_signmsg (unmarshal_signmsg data)
+  | DProt => rmap (fun p => OG (GMap p)) (unmarshal_protected data)
+  | DUnprot => rmap (fun p => OG (GMap p)) (unmarshal_unprotected data)
+  | DKey => rmap o_key (key_unmarshal data)
+  end.
+
+Fixpoint run_seq (k : deckind) (datas : list bytes) (dest : ot) (verdicts : list ot) : ot :=
+  match datas with
+  | [] => OT "seq" [dest; OT "verdicts" (rev verdicts)]
+  | d :: r =>
+      match dec_value k d with
+      | Acc v => run_seq k r v (OT "ok" [] :: verdicts)
+      | Rej e => run_seq k r dest (o_err e :: verdicts)
+      | Panic => o_panic
+      | Unm => o_unm
+      end
+  end.
+
+Definition o_outcome {A} (f : A -> ot) (o : outcome A) : ot :=
+  match out_res o with
+  | Unm => o_unm
+  | Panic => o_panic
+  | r => OT "out" [o_unit_res r; f (out_post o); r_calls (out_calls o)]
+  end.
+
+Definition o_verify (p : res unit * list (bytes * gobytes)) : ot :=
+  match fst p with
+  | Unm => o_unm
+  | Panic => o_panic
+  | r => OT "ver" [o_unit_res r; r_vcalls (snd p)]
+  end.
 
 Definition run (o : op) : ot :=
   match o with
   | OpEcdsaSign n src => o_res (fun b => [OB b]) (sign_digest (Z.to_nat n) src)
-  | OpEcdsaVerify n sig oracle =>
-      o_res (fun _ => []) (verify_digest (Z.to_nat n) (fun _ _ => oracle) sig)
+  | OpEcdsaVerify n sig oracle => o_unit_res (verify_digest (Z.to_nat n) (fun _ _ => oracle) sig)
+  | OpDec k data => run_dec k data
+  | OpDecSeq k datas => run_seq k datas (OT "zero" []) []
+  | OpEncSign1 tagged m => o_bytes_res (if tagged then marshal_sign1 m else marshal_sign1_untagged m)
+  | OpEncSignature s => o_bytes_res (marshal_signature s)
+  | OpEncSignMsg m => o_bytes_res (marshal_signmsg m)
+  | OpEncProt p => o_bytes_res (enc_protected p)
+  | OpEncUnprot u => o_bytes_res (enc_unprotected u)
+  | OpEncKey k => o_bytes_res (key_marshal k)
+  | OpSign1 m ext sg => o_outcome o_sign1 (sign1_sign m ext (mk_signer sg))
+  | OpVerify1 m ext vf => o_verify (sign1_verify m ext (mk_verifier vf))
+  | OpHelperSign1 tagged h payload ext sg =>
+      let '(r, callerP, calls) := helper_sign1 tagged h payload ext (mk_signer sg) in
+      match r with
+      | Unm => o_unm | Panic => o_panic
+      | _ => OT "helper" [o_bytes_res r; o_map callerP; r_calls calls]
+      end
+  | OpSigSign s sg bp payload ext => o_outcome o_sigv (signature_sign s (mk_signer sg) bp payload ext)
+  | OpSigVerify s vf bp payload ext => o_verify (signature_verify s (mk_verifier vf) bp payload ext)
+  | OpSignMsg m ext sgs => o_outcome o_signmsg (signmsg_sign m ext (map mk_signer sgs))
+  | OpVerifyMsg m ext vfs => o_verify (signmsg_verify m ext (map mk_verifier vfs))
+  | OpCsign s sg target ext => o_outcome o_sigv (csig_sign s (mk_signer sg) target ext)
+  | OpCverify s vf target ext => o_verify (csig_verify s (mk_verifier vf) target ext)
+  | OpCsign0 sg target ext =>
+      let '(r, calls) := countersign0 (mk_signer sg) target ext in
+      match r with
+      | Unm => o_unm | Panic => o_panic
+      | _ => OT "cs0" [o_res (fun b => [o_gobytes b]) r; r_calls calls]
+      end
+  | OpCverify0 vf target ext sig => o_verify (verify_countersign0 (mk_verifier vf) target ext sig)
+  | OpSignHE sg h p =>
+      let '(r, calls) := sign_he (mk_signer sg) h p in
+      match r with
+      | Unm => o_unm | Panic => o_panic
+      | _ => OT "he" [o_bytes_res r; r_calls calls]
+      end
+  | OpVerifyHE vf data =>
+      let '(r, calls) := verify_he (mk_verifier vf) data in
+      match r with
+      | Unm => o_unm | Panic => o_panic
+      | _ => OT "vhe" [o_res (fun m => [o_sign1 m]) r; r_vcalls calls]
+      end
+  | OpKeyFromPub p => o_res (fun k => [o_key k; o_bytes_res (key_marshal k)]) (new_key_from_public p)
+  | OpKeyFromPriv p => o_res (fun k => [o_key k; o_bytes_res (key_marshal k)]) (new_key_from_private p)
+  | OpKeyPublic k => o_res (fun p => [o_pub p]) (key_public k)
+  | OpKeyPrivate k => o_res (fun p => [o_priv p]) (key_private k)
+  | OpKeySigner k => o_res (fun a => [OZ a]) (key_signer k)
+  | OpKeyVerifier k oc => o_res (fun a => [OZ a]) (key_verifier k oc)
+  | OpNewSigner alg kd => o_res (fun a => [OZ a]) (new_signer alg kd)
+  | OpNewVerifier alg kd => o_res (fun a => [OZ a]) (new_verifier alg kd)
+  | OpDecAny data =>
+      match lib_wf true data with
+      | Some w => o_res (fun g => [OG g]) (dec true w)
+      | None => o_err EOther
+      end
+  | OpEncAny g => o_bytes_res (enc g)
   end.
 
 (* indices of mismatching cases, and of cases the model declines (Unm) *)
